@@ -168,7 +168,7 @@ func (e *Exec) instr(fr *Frame, ins ssa.Instruction, st *State, g string) {
 				v.Tup = append(v.Tup, rv)
 			}
 		}
-		fr.rets = append(fr.rets, retInfo{g, v, st.clone(), shortPos(e.P.Fset.Position(x.Pos()))})
+		fr.rets = append(fr.rets, retInfo{g, v, st.clone(), shortPos(e.P.Fset.Position(x.Pos())), len(e.Out.Lines)})
 	case *ssa.If, *ssa.Jump:
 	case *ssa.Panic:
 		if e.Opt.Sweep {
@@ -602,6 +602,8 @@ func (e *Exec) doTypeAssert(fr *Frame, x *ssa.TypeAssert, st *State, g string) {
 		// static knowledge: a value of interface type whose method set includes the target always implements it
 		if types.Implements(x.X.Type(), x.AssertedType.Underlying().(*types.Interface)) {
 			ok = Not(Eq(v.T, "anynil"))
+			// ... and the dynamic type of a non-nil value of that static type does implement the target
+			e.Out.Assert(Imp(Not(Eq(v.T, "anynil")), App(impl, "(typeof "+v.T+")")))
 		}
 		res = v.T
 	} else {
@@ -749,6 +751,8 @@ func (e *Exec) doNext(fr *Frame, x *ssa.Next, st *State, g string) {
 
 // globalFacts asserts the known initial contents of constant package-level byte arrays/slices.
 func (e *Exec) globalFacts(g *ssa.Global, st *State) {
+	e.Out.BeginGlobal()
+	defer e.Out.EndGlobal()
 	if e.P.globalIsNewError(g) {
 		// package-level error values made by errors.New: non-nil and pairwise distinct
 		name := "G$" + e.qual(g.Pkg.Pkg) + "." + g.Name()
